@@ -46,3 +46,351 @@ def replay_visibility(w, obligation, expects):
             + ("None" if w["parent_none"] else f"{'Module' if w['parent_cls'] == 0 else 'Class'}(exports={getattr(obj.parent, 'exports', None)!r}, imports={dict(obj.parent.imports)!r})"))
     return {"reproduced": actual != bool(expected), "detail": f"{attr} of {desc} = {actual}; documented table says {expected}",
             "signature": f"{attr}:{actual}:{expected}"}
+
+
+# =========================================================================== visitor oracle: what the source binds, walked independently with `ast`
+import ast
+import itertools
+import json
+import random
+import sys
+import time
+
+PROPERTY_DECOS = {"property": {"property"}, "functools.cached_property": {"cached", "property"}, "cached_property": {"cached", "property"}}
+LABEL_DECOS = {"staticmethod": {"staticmethod"}, "classmethod": {"classmethod"}, "abc.abstractmethod": {"abstractmethod"},
+               "functools.cache": {"cached"}, "functools.lru_cache": {"cached"}, "dataclasses.dataclass": {"dataclass"}}
+LABEL_DECOS.update(PROPERTY_DECOS)
+OVERLOADS = {"typing.overload", "typing_extensions.overload"}
+TC = {"TYPE_CHECKING", "typing.TYPE_CHECKING"}
+
+
+def _deco_path(d, imports):
+    d = d.func if isinstance(d, ast.Call) else d
+    try:
+        text = ast.unparse(d)
+    except Exception:  # noqa: BLE001
+        return ""
+    head, _, rest = text.partition(".")
+    if head in imports:
+        return imports[head] + ("." + rest if rest else "")
+    return text
+
+
+class Expected:
+    """Expected members of one scope: name -> dict(kind, runtime, lineno, endlineno, labels, overloads, setter, deleter, members, params)."""
+
+    def __init__(self):
+        self.members = {}
+        self.events = []
+
+
+def _params(args):
+    out = []
+    pos = args.posonlyargs + args.args
+    nd = len(args.defaults)
+    for i, a in enumerate(pos):
+        out.append((a.arg, "positional-only" if i < len(args.posonlyargs) else "positional or keyword", i >= len(pos) - nd))
+    if args.vararg:
+        out.append((args.vararg.arg, "variadic positional", None))
+    for a, d in zip(args.kwonlyargs, args.kw_defaults):
+        out.append((a.arg, "keyword-only", d is not None))
+    if args.kwarg:
+        out.append((args.kwarg.arg, "variadic keyword", None))
+    return out
+
+
+def expected_scope(body, scope_kind, guard=False, imports=None, pending=None, members=None, parent_node=None, cls_members=None, in_init=False, events=None, path=""):
+    """Walk statements like CPython binds them, with Griffe's documented tie-break rules."""
+    imports = {} if imports is None else imports
+    members = {} if members is None else members
+    pending = {} if pending is None else pending
+    events = [] if events is None else events
+    for st in body:
+        direct_conditional = isinstance(parent_node, (ast.If, ast.ExceptHandler))
+        if isinstance(st, (ast.FunctionDef, ast.AsyncFunctionDef)):
+            if in_init:
+                continue
+            decos = [_deco_path(d, imports) for d in st.decorator_list]
+            labels = set()
+            for d in decos:
+                labels |= LABEL_DECOS.get(d, set())
+            if isinstance(st, ast.AsyncFunctionDef):
+                labels.add("async")
+            lineno = st.decorator_list[0].lineno if st.decorator_list else st.lineno
+            if "property" in labels:
+                members[st.name] = dict(kind="attribute", runtime=not guard, lineno=st.lineno, endlineno=st.end_lineno, labels=labels, setter=False, deleter=False)
+                events.append(("instance", path + st.name))
+                continue
+            fn = dict(kind="function", runtime=not guard, lineno=lineno, endlineno=st.end_lineno, labels=labels, params=_params(st.args), overloads=[], members={})
+            if any(d in OVERLOADS for d in decos):
+                pending.setdefault(st.name, []).append(fn)
+                events.append(("instance", path + st.name))
+                continue
+            prop = None
+            for d in decos:
+                base, _, acc = d.rpartition(".")
+                if acc in ("setter", "deleter") and base == st.name and members.get(st.name, {}).get("kind") == "attribute" and "property" in members[st.name]["labels"]:
+                    prop = acc
+                    break
+            if prop:
+                members[st.name][prop] = True
+                members[st.name]["labels"] = members[st.name]["labels"] | {"writable" if prop == "setter" else "deletable"}
+                events.append(("instance", path + st.name))
+                continue
+            fn["overloads"] = pending.pop(st.name, [])
+            members[st.name] = fn
+            events.append(("instance", path + st.name))
+            if scope_kind == "class" and st.name == "__init__":
+                expected_scope(st.body, "function", guard, imports, None, members, st, None, True, events, path)
+        elif isinstance(st, ast.ClassDef):
+            if in_init:
+                continue
+            decos = [_deco_path(d, imports) for d in st.decorator_list]
+            labels = set()
+            for d in decos:
+                labels |= LABEL_DECOS.get(d, set())
+            sub = {}
+            members[st.name] = dict(kind="class", runtime=not guard, lineno=st.decorator_list[0].lineno if st.decorator_list else st.lineno,
+                                    endlineno=st.end_lineno, labels=labels, members=sub)
+            events.append(("instance", path + st.name))
+            expected_scope(st.body, "class", guard, dict(imports), {}, sub, st, None, False, events, path + st.name + ".")
+            events.append(("members", path + st.name))
+        elif isinstance(st, (ast.Assign, ast.AnnAssign)):
+            targets = st.targets if isinstance(st, ast.Assign) else [st.target]
+            names = []
+            for t in targets:
+                for e in (t.elts if isinstance(t, (ast.Tuple, ast.List)) else [t]):
+                    e = e.value if isinstance(e, ast.Starred) else e
+                    if in_init:
+                        if isinstance(e, ast.Attribute) and isinstance(e.value, ast.Name) and e.value.id == "self":
+                            names.append(e.attr)
+                    elif isinstance(e, ast.Name):
+                        names.append(e.id)
+            for nm in names:
+                if nm in members and direct_conditional:
+                    continue
+                members[nm] = dict(kind="attribute", runtime=not guard, lineno=st.lineno, endlineno=st.end_lineno, labels=None)
+                events.append(("instance", path + nm))
+        elif isinstance(st, ast.Import):
+            if in_init:
+                continue
+            for a in st.names:
+                nm = a.asname or a.name.split(".")[0]
+                imports[nm] = a.name if a.asname else a.name.split(".")[0]
+                members[nm] = dict(kind="alias", runtime=not guard, lineno=st.lineno, endlineno=st.end_lineno, labels=None, target=imports[nm])
+        elif isinstance(st, ast.ImportFrom):
+            if in_init or st.level:
+                continue
+            for a in st.names:
+                if a.name == "*":
+                    continue
+                nm = a.asname or a.name
+                imports[nm] = f"{st.module}.{a.name}"
+                members[nm] = dict(kind="alias", runtime=not guard, lineno=st.lineno, endlineno=st.end_lineno, labels=None, target=imports[nm])
+        elif isinstance(st, ast.If):
+            tc = isinstance(parent_node, (ast.Module, ast.ClassDef)) and ast.unparse(st.test) in TC
+            expected_scope(st.body, scope_kind, guard or tc, imports, pending, members, st, None, in_init, events, path)
+            expected_scope(st.orelse, scope_kind, guard, imports, pending, members, st, None, in_init, events, path)
+        elif isinstance(st, ast.Try):
+            expected_scope(st.body, scope_kind, guard, imports, pending, members, st, None, in_init, events, path)
+            for h in st.handlers:
+                expected_scope(h.body, scope_kind, guard, imports, pending, members, h, None, in_init, events, path)
+            expected_scope(st.orelse, scope_kind, guard, imports, pending, members, st, None, in_init, events, path)
+            expected_scope(st.finalbody, scope_kind, guard, imports, pending, members, st, None, in_init, events, path)
+        elif isinstance(st, (ast.For, ast.While, ast.With)):
+            expected_scope(st.body, scope_kind, guard, imports, pending, members, st, None, in_init, events, path)
+            expected_scope(getattr(st, "orelse", []), scope_kind, guard, imports, pending, members, st, None, in_init, events, path)
+    return members, events
+
+
+class Recorder:
+    """Passive extension recording the event stream."""
+
+    def __init__(self):
+        self.events = []
+
+
+def visit_source(src):
+    import griffe
+    from _griffe.extensions.base import Extension, Extensions
+
+    rec = []
+
+    class Rec(Extension):
+        def on_instance(self, *, node, obj, agent, **kwargs):
+            rec.append(("instance", obj))
+
+        def on_members(self, *, node, obj, agent, **kwargs):
+            rec.append(("members", obj))
+    mod = griffe.visit("m", filepath=None, code=src, extensions=Extensions(Rec()))
+    return mod, rec
+
+
+def compare_scope(exp, obj, path, lines, out):
+    got = dict(obj.members)
+    for nm in sorted(set(exp) | set(got)):
+        p = f"{path}{nm}"
+        if nm not in got:
+            out.append(f"{p}: bound in the source but missing from members")
+            continue
+        if nm not in exp:
+            out.append(f"{p}: member not bound by the source")
+            continue
+        e, g = exp[nm], got[nm]
+        kind = "alias" if g.is_alias else g.kind.value
+        if kind != e["kind"]:
+            out.append(f"{p}: kind {kind}, source binds a {e['kind']}")
+            continue
+        if g.runtime != e["runtime"]:
+            out.append(f"{p}: runtime={g.runtime}, source says {'not ' if e['runtime'] else ''}type-guarded")
+        gl, gel = (g.alias_lineno, g.alias_endlineno) if g.is_alias else (g.lineno, g.endlineno)
+        if (gl, gel) != (e["lineno"], e["endlineno"]):
+            out.append(f"{p}: span {gl}-{gel}, source {e['lineno']}-{e['endlineno']}")
+        if e.get("labels") is not None and not g.is_alias:
+            missing = e["labels"] - set(g.labels)
+            extra = {l for l in set(g.labels) - e["labels"] if l in {"property", "cached", "staticmethod", "classmethod", "abstractmethod", "async", "writable", "deletable", "dataclass"}}
+            if missing or extra:
+                out.append(f"{p}: labels {sorted(g.labels)}, decorators give {sorted(e['labels'])}")
+        if e["kind"] == "function":
+            gp = [(q.name.lstrip("*"), q.kind.value, None if q.kind.value.startswith("variadic") else q.default is not None) for q in g.parameters]
+            if gp != e["params"]:
+                out.append(f"{p}: parameters {gp}, source {e['params']}")
+            if [len(o.parameters) for o in (g.overloads or [])] != [len(o["params"]) for o in e["overloads"]]:
+                out.append(f"{p}: {len(g.overloads or [])} overloads attached, source defines {len(e['overloads'])}")
+        if e["kind"] == "attribute" and "setter" in e:
+            if (g.setter is not None) != e["setter"] or (g.deleter is not None) != e["deleter"]:
+                out.append(f"{p}: setter/deleter attached = {g.setter is not None}/{g.deleter is not None}, source {e['setter']}/{e['deleter']}")
+        if e["kind"] == "class":
+            compare_scope(e["members"], g, p + ".", lines, out)
+        if not g.is_alias and e["kind"] in ("function", "class") and lines:
+            first = lines[gl - 1].lstrip() if gl and gl <= len(lines) else ""
+            if not (first.startswith("@") or first.startswith(("def ", "async def ", "class "))):
+                out.append(f"{p}: slicing the source by the span does not start at the definition: {first!r}")
+
+
+PRELUDE = "import typing\nimport dataclasses\nfrom typing import TYPE_CHECKING, overload\n"
+
+
+def check_source(src):
+    """-> list of disagreements between Griffe's static view of `src` and what the source binds."""
+    if not src.startswith(PRELUDE):
+        src = PRELUDE + src
+    tree = ast.parse(src)
+    exp, exp_events = expected_scope(tree.body, "module", False, parent_node=tree)
+    try:
+        mod, rec = visit_source(src)
+    except Exception as e:  # noqa: BLE001
+        return [f"static loading raised {type(e).__name__}: {e}"]
+    out = []
+    compare_scope(exp, mod, "", src.splitlines(), out)
+    # events: every object placed in the tree announced exactly once, parent before members, members-complete after the last member
+    def walk(o):
+        yield o
+        for m in o.members.values():
+            if not m.is_alias:
+                yield from walk(m)
+                for extra in (getattr(m, "setter", None), getattr(m, "deleter", None)):
+                    if extra is not None:
+                        yield extra
+                if m.is_function:
+                    for ov in (m.overloads or []):
+                        yield ov
+    inst = [id(o) for k, o in rec if k == "instance"]
+    for o in walk(mod):
+        n = inst.count(id(o))
+        if n != 1:
+            out.append(f"{o.path.removeprefix('m.')}: placed in the tree but announced to extensions {n} times")
+        elif o.parent is not None and not o.parent.is_function and id(o.parent) in inst and inst.index(id(o.parent)) > inst.index(id(o)):
+            out.append(f"{o.path.removeprefix('m.')}: announced before its parent")
+    done = {}
+    for i, (kind, o) in enumerate(rec):
+        if kind == "members":
+            done[id(o)] = done.get(id(o), 0) + 1
+            later = [q for k, q in rec[i + 1:] if k == "instance" and q.parent is o]
+            if later:
+                out.append(f"{o.path.removeprefix('m.')}: members-complete event fired before its member {later[0].name} was announced")
+    for o in walk(mod):
+        if (o.is_class or o.is_module) and done.get(id(o), 0) != 1:
+            out.append(f"{o.path.removeprefix('m.')}: members-complete event fired {done.get(id(o), 0)} times")
+    return out
+
+
+SIMPLE = ["x = 1", "x: int = 2", "x = y = 3", "y = 4", "import os",
+          "def f(a, b=1): pass", "async def f(): pass", "@staticmethod\ndef g(a, /, *, k=0): pass", "def g(): pass",
+          "@overload\ndef f(a: int): ...", "@overload\n@staticmethod\ndef f(a: str, b): ...", "@typing.overload\ndef g(): ...",
+          "@property\ndef p(self): return 1", "@p.setter\ndef p(self, v): pass", "@p.deleter\ndef p(self): pass", "from m2 import a, b as c"]
+COMPOUND = ["if TYPE_CHECKING:\n{0}", "if TYPE_CHECKING:\n{0}\nelse:\n{1}", "if cond:\n{0}\nelse:\n{1}", "try:\n{0}\nexcept E:\n{1}", "for _ in z:\n{0}",
+            "class C:\n{0}", "class C:\n{0}\n{1}", "if typing.TYPE_CHECKING:\n{0}\n{1}", "if cond:\n{0}", "if not typing.TYPE_CHECKING:\n{0}", "if x.TYPE_CHECKING:\n{0}",
+            "if TYPE_CHECKING:\n    if cond:\n    {0}\n{1}", "class C:\n    def __init__(self):\n        self.x = self.w = 1\n{0}",
+            "@dataclasses.dataclass\nclass D:\n{0}"]
+
+
+def indent(s, n=4):
+    return "\n".join(" " * n + l for l in s.split("\n"))
+
+
+def gen_modules(seed, n_random):
+    """Deterministic catalogue (all compound x pairs of simple statements, followed by a trailing statement) + random deeper modules."""
+    for comp in COMPOUND:
+        for a, b in itertools.product(SIMPLE, repeat=2):
+            yield "\n".join([comp.format(indent(a), indent(b)), "x = 5", "def f(z): pass"])
+    rnd = random.Random(seed)
+
+    def stmt(depth):
+        if depth == 0 or rnd.random() < 0.45:
+            return rnd.choice(SIMPLE)
+        comp = rnd.choice(COMPOUND)
+        return comp.format(indent(block(depth - 1)), indent(block(depth - 1)))
+
+    def block(depth):
+        return "\n".join(stmt(depth) for _ in range(rnd.randint(1, 3)))
+    for _ in range(n_random):
+        yield block(3)
+
+
+def bounded_visitor(seed, n_random, budget_s):
+    import logging
+    logging.disable(logging.CRITICAL)
+    t0 = time.time()
+    bad, cases, sigs = [], 0, set()
+    for src in gen_modules(seed, n_random):
+        if time.time() - t0 > budget_s:
+            break
+        try:
+            ast.parse(src)
+        except SyntaxError:
+            continue
+        cases += 1
+        for f in check_source(src)[:2]:
+            sig = f.split(":", 1)[1].strip()[:40]
+            sig = "".join(ch for ch in sig if not ch.isdigit())
+            if sig not in sigs:
+                sigs.add(sig)
+                bad.append({"source": src, "failure": f, "signature": "visitor:" + sig})
+    return {"cases": cases, "bad": bad, "wall_s": round(time.time() - t0, 1)}
+
+
+def replay_visitor(w, obligation, expects):
+    """Guided search: modules from the catalogue that exercise the refuted handler, checked against the source-level oracle."""
+    import logging
+    logging.disable(logging.CRITICAL)
+    clause = (expects or {}).get("clause", "")
+    want = {"visit_if": ("runtime=",), "handle_attribute": ("missing from members", "not bound by", "kind "), "handle_function": ("overloads", "labels", "setter", "parameters", "kind ", "missing"),
+            "visit_classdef": ("span", "labels", "members-complete", "announced")}.get(clause)
+    t0 = time.time()
+    for src in gen_modules(0, 3000):
+        if time.time() - t0 > 90:
+            break
+        try:
+            ast.parse(src)
+        except SyntaxError:
+            continue
+        fails = check_source(src)
+        hit = [f for f in fails if want is None or any(x in f for x in want)]
+        if hit:
+            return {"reproduced": True, "detail": hit[0], "input": {"source": src}, "signature": "visitor:" + "".join(ch for ch in hit[0].split(":", 1)[1].strip()[:40] if not ch.isdigit())}
+    return {"reproduced": False, "detail": "no module of the catalogue disagrees with the source-level oracle"}
+
+
+if __name__ == "__main__":
+    print(json.dumps(bounded_visitor(int(sys.argv[1]), int(sys.argv[2]), float(sys.argv[3]))))
